@@ -4,6 +4,7 @@
 #include "simulator/queue.hpp"
 #include "simulator/nat.hpp"
 #include "simulator/packet.hpp"
+#include "simulator/http_server.hpp"
 #include <map>
 #include <memory>
 #include <array>
@@ -229,7 +230,25 @@ struct runner
 	std::map<long long, std::unique_ptr<udps::socket>> udpsocks;
 	std::map<long long, std::unique_ptr<tcps::resolver>> rslvs;
 	std::map<long long, long long> obj_node;
+	std::map<long long, std::unique_ptr<sim::http_server>> https;
 	std::string pcap_path;
+
+	static std::string unhex(std::string const& h)
+	{
+		std::string r;
+		if (h == "-") return r;
+		for (std::size_t i = 0; i + 1 < h.size(); i += 2) r.push_back(char(std::stoi(h.substr(i, 2), nullptr, 16)));
+		return r;
+	}
+	static std::string pat_str(long long seed, long long start, long long len)
+	{
+		if (len <= 0 || start + len <= 0) return std::string();
+		std::vector<std::uint8_t> v;
+		pat_fill(v, seed, start + len);
+		if (start < 0) start = 0;
+		if (std::size_t(start) >= v.size()) return std::string();
+		return std::string(v.begin() + start, v.end());
+	}
 
 	static std::vector<asio::ip::address> addr_list(toks const& t, size_t k)
 	{
@@ -598,6 +617,39 @@ struct runner
 			});
 		}
 		else if (c == "rslv_cancel") rslvs.at(arg(1))->cancel();
+		else if (c == "http_new")
+		{
+			https[arg(1)].reset(new sim::http_server(node(arg(2)), std::uint16_t(arg(3))
+				, arg(4) ? int(sim::http_server::keep_alive) : 0));
+		}
+		else if (c == "http_fixed")
+		{
+			long long len = arg(3), seed = arg(4);
+			https.at(arg(1))->register_handler(unhex(t[k + 2])
+				, [len, seed](std::string, std::string, std::map<std::string, std::string>&) {
+					return sim::send_response(200, "OK", int(len)) + pat_str(seed, 0, len);
+				});
+		}
+		else if (c == "http_redirect") https.at(arg(1))->register_redirect(unhex(t[k + 2]), unhex(t[k + 3]));
+		else if (c == "http_content")
+		{
+			long long seed = arg(4);
+			https.at(arg(1))->register_content(unhex(t[k + 2]), arg(3)
+				, [seed](std::int64_t start, std::int64_t len) { return pat_str(seed, start, len); });
+		}
+		else if (c == "http_stall") https.at(arg(1))->register_stall_handler(unhex(t[k + 2]));
+		else if (c == "http_stop") https.at(arg(1))->stop();
+		else if (c == "tcp_write_bytes")
+		{
+			long long h = arg(3);
+			auto data = std::make_shared<std::string>(unhex(t[k + 2]));
+			socks.at(arg(1))->async_write_some(asio::const_buffer(data->data(), data->size())
+				, [this, h, data](boost::system::error_code const& ec, std::size_t n) {
+					run_handler(h, " " + std::to_string(ec_code(ec)) + " " + std::to_string(n));
+				});
+		}
+		else if (c == "tcp_read_raw") read_raw(arg(1), std::size_t(arg(2)), arg(3), false);
+		else if (c == "tcp_read_loop") read_raw(arg(1), std::size_t(arg(2)), arg(3), true);
 		else if (c == "set_next_port") sim->verif_set_next_bind_port(std::uint16_t(arg(1)));
 		else if (c == "pcap_on")
 		{
@@ -607,6 +659,19 @@ struct runner
 			sim->log_pcap(path);
 		}
 		else tr.line("BADOP %s", c.c_str());
+	}
+
+	void read_raw(long long s, std::size_t bufsize, long long h, bool loop)
+	{
+		auto buf = std::make_shared<std::vector<std::uint8_t>>(bufsize);
+		socks.at(s)->async_read_some(asio::mutable_buffer(buf->data(), buf->size())
+			, [this, s, bufsize, h, loop, buf](boost::system::error_code const& ec, std::size_t n) {
+				std::vector<std::vector<std::uint8_t>> bufs(1, *buf);
+				std::string a = read_args(ec_code(ec), ec ? 0 : n, bufs);
+				if (!ec) for (std::size_t i = 0; i < n && i < buf->size(); ++i) a += " " + std::to_string(int((*buf)[i]));
+				run_handler(h, a);
+				if (loop && !ec) read_raw(s, bufsize, h, true);
+			});
 	}
 
 	void write_all(long long s, std::shared_ptr<std::vector<std::uint8_t>> data, std::size_t off, std::size_t chunk, long long h)
@@ -672,7 +737,7 @@ struct runner
 			else op(l, 1);
 		}
 		// tear down: objects first, then nodes, then the simulation (flushes the capture)
-		rslvs.clear(); socks.clear(); accs.clear(); udpsocks.clear(); timers.clear();
+		https.clear(); rslvs.clear(); socks.clear(); accs.clear(); udpsocks.clear(); timers.clear();
 		nodes.clear(); ios.reset(); sim.reset();
 		if (!pcap_path.empty())
 		{
